@@ -23,6 +23,12 @@ def wf(E, label, x):
     E.true(label + ':boundary_ranks', (cores[0].shape[0] == 1) & (cores[-1].shape[-1] == 1))
     E.true(label + ':R', all_eq(list(x.R), [cores[0].shape[0]] + [c.shape[-1] for c in cores]))
     E.true(label + ':is_ttm', x.is_ttm == (nd == 4))
+    # the metadata getters hand out copies: changing a returned list must not change the object
+    for nm in (('N', 'R') + (('M',) if nd == 4 else ())):
+        got = getattr(x, nm)
+        n0 = len(got)
+        got.append(99)
+        E.true(label + ':%s_getter_returns_copy' % nm, len(getattr(x, nm)) == n0 and getattr(x, nm) is not got)
     if nd == 4:
         E.true(label + ':M', all_eq(list(x.M), [c.shape[1] for c in cores]))
         E.true(label + ':N', all_eq(list(x.N), [c.shape[2] for c in cores]))
